@@ -17,7 +17,7 @@ use std::collections::HashSet;
 use std::path::{Path, PathBuf};
 
 pub const MINI_BLOCKS: usize = 12;
-const ITEM_CAP: usize = 2_000_000;
+const ITEM_CAP: usize = 100_000; // the longest legitimate iterator is a primary index: 21_601 entries
 const WORKER_AS_LIMIT: u64 = 4 << 30;
 
 #[derive(Debug, Clone, Copy, PartialEq, Eq, Serialize, Deserialize)]
@@ -257,67 +257,136 @@ pub fn exercise(
     out
 }
 
-/// Entry point of the isolated worker: `<exe> --c43-worker <dir> <name> <db_level 0|1> <probes json>`.
-pub fn worker_main(args: &[String]) -> ! {
-    use std::io::Write;
+#[derive(Serialize, Deserialize)]
+struct Request {
+    dir: PathBuf,
+    name: String,
+    db_level: bool,
+    probes: Vec<Probe>,
+}
+
+/// Entry point of the isolated worker (`<exe> --c43-worker`): serves one request per stdin line
+/// (`Request` as JSON), answering with `STEP <name>` progress lines and one `RESULT <Outcome>` line.
+pub fn worker_main(_args: &[String]) -> ! {
+    use std::io::{BufRead, Write};
     let lim = libc::rlimit { rlim_cur: WORKER_AS_LIMIT, rlim_max: WORKER_AS_LIMIT };
     unsafe {
         libc::setrlimit(libc::RLIMIT_AS, &lim);
-        // no core dumps from deliberate aborts
+        // no core dumps from allocation-failure aborts
         let z = libc::rlimit { rlim_cur: 0, rlim_max: 0 };
         libc::setrlimit(libc::RLIMIT_CORE, &z);
     }
-    let dir = PathBuf::from(&args[0]);
-    let name = &args[1];
-    let db_level = args[2] == "1";
-    let probes: Vec<Probe> = serde_json::from_str(&args[3]).expect("probes json");
-    let mut progress = |s: &str| {
+    let stdin = std::io::stdin();
+    for line in stdin.lock().lines() {
+        let Ok(line) = line else { break };
+        let Ok(req) = serde_json::from_str::<Request>(&line) else { break };
+        let mut progress = |s: &str| {
+            let mut o = std::io::stdout().lock();
+            let _ = writeln!(o, "STEP {s}");
+            let _ = o.flush();
+        };
+        let out = exercise(&req.dir, &req.name, req.db_level, &req.probes, None, &mut progress);
         let mut o = std::io::stdout().lock();
-        let _ = writeln!(o, "STEP {s}");
+        let _ = writeln!(o, "RESULT {}", serde_json::to_string(&out).unwrap());
         let _ = o.flush();
-    };
-    let out = exercise(&dir, name, db_level, &probes, None, &mut progress);
-    println!("RESULT {}", serde_json::to_string(&out).unwrap());
+    }
     std::process::exit(0)
 }
 
+/// A long-lived worker process owned by one runner thread; respawned after it dies.
+struct Worker {
+    child: std::process::Child,
+    stdin: std::process::ChildStdin,
+    stdout: std::io::BufReader<std::process::ChildStdout>,
+}
+
+impl Worker {
+    fn spawn(exe: &Path) -> std::io::Result<Worker> {
+        use std::process::Stdio;
+        let mut child = std::process::Command::new(exe)
+            .arg("--c43-worker")
+            .stdin(Stdio::piped())
+            .stdout(Stdio::piped())
+            .stderr(Stdio::piped())
+            .spawn()?;
+        let stdin = child.stdin.take().unwrap();
+        let stdout = std::io::BufReader::new(child.stdout.take().unwrap());
+        Ok(Worker { child, stdin, stdout })
+    }
+}
+
+impl Drop for Worker {
+    fn drop(&mut self) {
+        let _ = self.child.kill();
+        let _ = self.child.wait();
+    }
+}
+
+thread_local! {
+    static WORKER: std::cell::RefCell<Option<Worker>> = const { std::cell::RefCell::new(None) };
+}
+
 fn run_in_worker(exe: &Path, dir: &Path, name: &str, db_level: bool, probes: &[Probe]) -> Outcome {
+    use std::io::{BufRead, Read, Write};
     use std::os::unix::process::ExitStatusExt;
-    let res = std::process::Command::new(exe)
-        .arg("--c43-worker")
-        .arg(dir)
-        .arg(name)
-        .arg(if db_level { "1" } else { "0" })
-        .arg(serde_json::to_string(probes).unwrap())
-        .stdin(std::process::Stdio::null())
-        .output();
-    let o = match res {
-        Ok(o) => o,
-        Err(e) => {
-            return Outcome { fails: vec![("harness:worker-spawn-failed".into(), e.to_string())], classes: vec![] };
+    let harness_fail = |m: String| Outcome { fails: vec![("harness:worker-io".into(), m)], classes: vec![] };
+    WORKER.with(|slot| {
+        let mut slot = slot.borrow_mut();
+        if slot.is_none() {
+            match Worker::spawn(exe) {
+                Ok(w) => *slot = Some(w),
+                Err(e) => return harness_fail(format!("spawn: {e}")),
+            }
         }
-    };
-    let stdout = String::from_utf8_lossy(&o.stdout);
-    let last_step = stdout.lines().filter_map(|l| l.strip_prefix("STEP ")).last().unwrap_or("?").to_string();
-    if let Some(r) = stdout.lines().find_map(|l| l.strip_prefix("RESULT ")) {
-        if let Ok(out) = serde_json::from_str::<Outcome>(r) {
-            return out;
+        let w = slot.as_mut().unwrap();
+        let req = Request { dir: dir.to_owned(), name: name.to_string(), db_level, probes: probes.to_vec() };
+        let mut line = serde_json::to_string(&req).unwrap();
+        line.push('\n');
+        let sent = w.stdin.write_all(line.as_bytes()).and_then(|_| w.stdin.flush());
+        let mut last_step = "?".to_string();
+        if sent.is_ok() {
+            loop {
+                let mut l = String::new();
+                match w.stdout.read_line(&mut l) {
+                    Ok(0) | Err(_) => break,
+                    Ok(_) => {
+                        let l = l.trim_end();
+                        if let Some(st) = l.strip_prefix("STEP ") {
+                            last_step = st.to_string();
+                        } else if let Some(r) = l.strip_prefix("RESULT ") {
+                            return match serde_json::from_str::<Outcome>(r) {
+                                Ok(o) => o,
+                                Err(e) => harness_fail(format!("unparsable result: {e}")),
+                            };
+                        }
+                    }
+                }
+            }
         }
-    }
-    let stderr = String::from_utf8_lossy(&o.stderr);
-    let first = stderr.lines().find(|l| !l.trim().is_empty()).unwrap_or("").trim().to_string();
-    let how = match (o.status.signal(), o.status.code()) {
-        (Some(s), _) => format!("signal {s}"),
-        (_, Some(c)) => format!("exit {c}"),
-        _ => "?".into(),
-    };
-    Outcome {
-        fails: vec![(
-            format!("process-abort@{last_step}: {}", lightpanic::normalise(&first)),
-            format!("the process died ({how}) inside {last_step} under RLIMIT_AS={WORKER_AS_LIMIT}: {first}"),
-        )],
-        classes: vec![format!("{last_step}:ABORT")],
-    }
+        // the worker died while serving this request
+        let mut w = slot.take().unwrap();
+        let status = w.child.wait();
+        let mut stderr = String::new();
+        if let Some(mut e) = w.child.stderr.take() {
+            let _ = e.read_to_string(&mut stderr);
+        }
+        let first = stderr.lines().find(|l| !l.trim().is_empty()).unwrap_or("").trim().to_string();
+        let how = match status {
+            Ok(st) => match (st.signal(), st.code()) {
+                (Some(s), _) => format!("signal {s}"),
+                (_, Some(c)) => format!("exit {c}"),
+                _ => "?".into(),
+            },
+            Err(e) => format!("wait: {e}"),
+        };
+        Outcome {
+            fails: vec![(
+                format!("process-abort@{last_step}: {}", lightpanic::normalise(&first)),
+                format!("the process died ({how}) inside {last_step} under RLIMIT_AS={WORKER_AS_LIMIT}: {first}"),
+            )],
+            classes: vec![format!("{last_step}:ABORT")],
+        }
+    })
 }
 
 // ---- fault application ----------------------------------------------------------------------
@@ -328,6 +397,7 @@ pub struct Ctx {
     /// where the intact file of [target][file] lives (symlink destination)
     paths: Vec<[PathBuf; 3]>,
     probes: Vec<Vec<Probe>>,
+    deep_probes: Vec<Vec<Probe>>,
     truth: HashSet<u64>,
     exe: PathBuf,
     _mini_dir: TempDir,
@@ -460,7 +530,12 @@ fn check(s: &Session, ctx: &Ctx, c: &Case, obs: &mut Obs) -> Result<(), Fail> {
     obs.class(fault_class(&c.fault));
     obs.class(format!("target:{:?}", c.target));
     obs.class(if c.db_level { "level:directory" } else { "level:chunk" });
-    let probes = &ctx.probes[c.target.idx()];
+    let mut probes = ctx.probes[c.target.idx()].clone();
+    if c.db_level && (!s.quick() || fnv64(format!("{c:?}").as_bytes()) % 8 == 0) {
+        obs.class("deep-probes");
+        probes.extend(ctx.deep_probes[c.target.idx()].iter().cloned());
+    }
+    let probes = &probes[..];
     let out = if needs_isolation(&c.fault) {
         obs.class("isolated-worker");
         run_in_worker(&ctx.exe, dir.path(), c.target.name(), c.db_level, probes)
@@ -480,7 +555,7 @@ fn check(s: &Session, ctx: &Ctx, c: &Case, obs: &mut Obs) -> Result<(), Fail> {
                 return Err(Fail { sig: "harness:intact-db-reads-with-errors".into(), msg: format!("{:?}: expected {st}, got {:?}", c.target, out.classes) });
             }
         }
-        if c.target != Target::C02019 && out.classes.iter().any(|c| c.starts_with("observation:")) {
+        if c.target == Target::Mini && out.classes.iter().any(|c| c.starts_with("observation:")) {
             return Err(Fail { sig: "harness:intact-db-yields-foreign-blocks".into(), msg: format!("{:?}: {:?}", c.target, out.classes) });
         }
     }
@@ -584,15 +659,23 @@ fn setup() -> Result<Ctx, String> {
     let exact = |b: &imm::Blk| Probe { slot: b.slot, hash: hex::encode(b.hash) };
     let fuzzy = |b: &imm::Blk| Probe { slot: b.slot, hash: String::new() };
     let nxt = &chunks[2][0];
+    // cheap probes sit at the start of a chunk (few blocks decoded while seeking)
     let probes = vec![
         vec![exact(&chunks[0][0]), fuzzy(&chunks[0][0]), fuzzy(&chunks[0][5]), exact(&chunks[0][5]), exact(&chunks[0][11]),
              Probe { slot: chunks[0][11].slot + 1, hash: String::new() }, fuzzy(nxt)],
-        vec![exact(&chunks[0][0]), fuzzy(&chunks[0][3]), exact(&chunks[0][863]), fuzzy(&chunks[1][0])],
-        vec![exact(&chunks[1][0]), fuzzy(&chunks[1][3]), exact(&chunks[1][912]), fuzzy(nxt), fuzzy(&chunks[0][860])],
-        vec![exact(nxt), fuzzy(nxt), fuzzy(&chunks[2][3]), fuzzy(&chunks[1][910])],
+        vec![exact(&chunks[0][0]), fuzzy(&chunks[0][3]), fuzzy(&chunks[1][0])],
+        vec![exact(&chunks[1][0]), fuzzy(&chunks[1][3]), fuzzy(nxt)],
+        vec![exact(nxt), fuzzy(nxt), fuzzy(&chunks[2][3]), exact(&chunks[1][2])],
+    ];
+    // deep probes make the seek walk (and decode) most of a big chunk; used on 1 case in 8
+    let deep_probes = vec![
+        vec![],
+        vec![exact(&chunks[0][863]), fuzzy(&chunks[0][500])],
+        vec![exact(&chunks[1][912]), fuzzy(&chunks[0][860])],
+        vec![fuzzy(&chunks[1][910])],
     ];
     let truth = chunks.iter().flatten().map(|b| fnv64(&b.bytes)).collect();
-    Ok(Ctx { files, paths, probes, truth, exe: std::env::current_exe().map_err(|e| e.to_string())?, _mini_dir: mini_dir })
+    Ok(Ctx { files, paths, probes, deep_probes, truth, exe: std::env::current_exe().map_err(|e| e.to_string())?, _mini_dir: mini_dir })
 }
 
 pub fn run(s: &Session) {
@@ -738,7 +821,7 @@ fn run_inner(s: &Session) {
     s.foreach("overwrite-offsets-mini", fam, false, ck);
 
     // 5. random combinations, all targets
-    s.forall("random-corruption", s.pick(1_500, 40_000), corrupt_case, ck);
+    s.forall("random-corruption", s.pick(1_200, 40_000), corrupt_case, ck);
 
     for need in ["fault:truncate-primary", "fault:truncate-secondary", "fault:truncate-chunk", "fault:missing-primary", "fault:empty-secondary",
         "fault:primary-offsets", "fault:secondary-offsets", "isolated-worker", "level:directory", "chunk::read_blocks:ok-then-err", "chunk::read_blocks:open-err"] {
